@@ -27,7 +27,10 @@ from runner import HarnessError, hyp
 
 PID = "C29"
 LEVEL = "fault_enumeration"
-RULE = ("(a) exhaustive: 4-message ping-pong script x every placement of {none,EOF,cancel} for client and server "
+RULE = ("(c) end-to-end on the asyncio simulator: real ProxyConnectionHandler + TCPLayer over fake sockets, generated "
+        "token scripts where each peer sends EOF at a generated point (one half-closes while the other keeps sending), "
+        "slow tcp_message hooks, connect delay, timer overshoot; non-trivial = data sent after the other peer's EOF. "
+        "(a) exhaustive: 4-message ping-pong script x every placement of {none,EOF,cancel} for client and server "
         "(both orders on ties) x connect {pre,ok,fail} x <=1 injection (position, direction) x <=1 withheld blocking "
         "command (which one, for how many events), TCP and UDP; (b) Hypothesis scripts of <=14 ops with arbitrary "
         "contents/edits/injections/holds. non-trivial = a close (EOF/cancel) followed by later traffic, or an "
@@ -45,6 +48,7 @@ LEVEL_TEXT = ("All close/half-close/cancel orders, connect outcomes, single inje
               "over a 4-message script are enumerated completely for TCP and UDP; longer scripts are sampled.")
 LEVEL_NOTE = "trusts lib/driver.py's model of server.py command handling and the reference relay model in this file"
 QUICK_N, THOROUGH_N = 30_000, 3_000_000
+E2E_QUICK_N, E2E_THOROUGH_N = 6_000, 300_000
 
 C, S = 0, 1  # sides
 
@@ -203,6 +207,11 @@ def _shape(case):
 
 
 def check_case(case, ctx):
+    if case.get("part") == "E":
+        # end-to-end part: real ConnectionHandler.server_event over fake streams on the simulator (lib/sim_relay.py)
+        import sim_relay
+        sim_relay.check_case(case, ctx)
+        return
     import stream_harness as sh
     from mitmproxy.connection import ConnectionState
     from mitmproxy.proxy import commands
@@ -583,4 +592,8 @@ def run(ctx):
     ctx.exhaustive = stride == 1
     ctx.extra["enumerated_scripts"] = n
     ctx.sample(_build(("tcp", "ok", ("h", 1), ("x", 3), 0, (2, S), ("msg1", 2))))
+    # (c) end-to-end: the commands are executed by the real ConnectionHandler against simulated transports
+    # (run before the long sampled part so that a wall-clock budget on a loaded machine never starves it)
+    import sim_relay
+    hyp(ctx, sim_relay.strategy(), check_case, ctx.n(E2E_QUICK_N, E2E_THOROUGH_N))
     hyp(ctx, strategy(ctx), check_case, ctx.n(QUICK_N, THOROUGH_N))
